@@ -42,9 +42,11 @@ fn lib<R>(f: impl FnOnce() -> R) -> Result<R, String> {
     crate::alloc::set_armed(true);
     let r = catch_unwind(AssertUnwindSafe(f));
     crate::alloc::set_armed(false);
+    let panicked = r.is_err();
     with_ctx(|c| {
         c.allocs += crate::alloc::peek() - c.alloc_mark;
         c.in_lib = false;
+        c.lib_panicked |= panicked;
     });
     r.map_err(panic_msg)
 }
@@ -402,6 +404,12 @@ enum Obj {
         recipe: SubRecipe,
         /// number of next() calls made on this lineage so far
         calls: usize,
+        /// (call index, k): the forced give-up fault was armed with countdown
+        /// k before that call; replayed on witnesses so that they carry the
+        /// same prefilter-state history
+        inert_log: Vec<(usize, u32)>,
+        /// the witness' own forced-give-up countdown
+        witness_inert: Option<u32>,
         /// for forks (clone / into_owned): an iterator that was brought to
         /// the fork point WITHOUT clone/into_owned, by replaying the calls
         witness: Option<Box<dyn DynSub>>,
@@ -550,7 +558,10 @@ impl<'a> Th<'a> {
                     None => return Out::skip("iter_new"),
                     Some(s) => s,
                 };
-                let it = s.iter(h);
+                let it = match catch_unwind(AssertUnwindSafe(|| s.iter(h))) {
+                    Ok(it) => it,
+                    Err(e) => return Out::new("iter_new", Res::Panic(panic_msg(e))).expect(VKind::ByteIter, Res::Unit),
+                };
                 let model = model::byte_positions(self.bytes(*hay), (*arity).clamp(1, 3), n);
                 self.put(*dst, Obj::BIter { it, model, single: *arity <= 1 });
                 Out::new("iter_new", Res::Unit)
@@ -711,7 +722,7 @@ impl<'a> Th<'a> {
             }
             Op::FIterNew { f, rev, hay, needle, dst } => self.op_fiter_new(*f, *rev, *hay, *needle, *dst),
             Op::FIterNext { it } => match self.get(*it) {
-                Some(Obj::Sub { it, list, idx, inert, calls, witness, .. }) => {
+                Some(Obj::Sub { it, list, idx, inert, calls, witness, witness_inert, .. }) => {
                     with_ctx(|c| c.inert_countdown = *inert);
                     let r = it.next();
                     *inert = with_ctx(|c| c.inert_countdown.take()).flatten();
@@ -724,7 +735,9 @@ impl<'a> Th<'a> {
                     // a fork (clone / into_owned) must behave exactly like an
                     // iterator that reached the fork point the ordinary way
                     if let Some(wit) = witness.as_mut() {
+                        with_ctx(|c| c.inert_countdown = *witness_inert);
                         let wr = res_of(wit.next(), Res::opt);
+                        *witness_inert = with_ctx(|c| c.inert_countdown.take()).flatten();
                         if wr != res {
                             return Out::new("fiter_next", res).expect(VKind::History, wr);
                         }
@@ -754,15 +767,18 @@ impl<'a> Th<'a> {
             },
             Op::FIterClone { it, dst } => {
                 let forked = match self.get(*it) {
-                    Some(Obj::Sub { it, list, idx, inert, owned, recipe, calls, .. }) => {
-                        Some((it.fork(), list.clone(), *idx, *inert, *owned, recipe.clone(), *calls))
+                    Some(Obj::Sub { it, list, idx, inert, owned, recipe, calls, inert_log, .. }) => {
+                        Some((it.fork(), list.clone(), *idx, *inert, *owned, recipe.clone(), *calls, inert_log.clone()))
                     }
                     _ => None,
                 };
                 match forked {
-                    Some((Ok(it2), list, idx, inert, owned, recipe, calls)) => {
-                        let witness = self.make_witness(&recipe, calls);
-                        self.put(*dst, Obj::Sub { it: it2, list, idx, inert, owned, recipe, calls, witness });
+                    Some((Ok(it2), list, idx, inert, owned, recipe, calls, inert_log)) => {
+                        let (witness, witness_inert) = self.make_witness(&recipe, calls, &inert_log);
+                        self.put(
+                            *dst,
+                            Obj::Sub { it: it2, list, idx, inert, owned, recipe, calls, inert_log, witness, witness_inert },
+                        );
                         let mut o = Out::new("fiter_clone", Res::Unit);
                         o.allow_alloc = owned;
                         o
@@ -772,12 +788,27 @@ impl<'a> Th<'a> {
                 }
             }
             Op::FIterOwn { it } => match self.take(*it) {
-                Some(Obj::Sub { it: real, list, idx, inert, owned, recipe, calls, witness }) => match real.own() {
+                Some(Obj::Sub { it: real, list, idx, inert, owned, recipe, calls, inert_log, witness, witness_inert }) => match real.own() {
                     Ok((it2, converted)) => {
-                        let witness = if converted { self.make_witness(&recipe, calls) } else { witness };
+                        let (witness, witness_inert) = if converted {
+                            self.make_witness(&recipe, calls, &inert_log)
+                        } else {
+                            (witness, witness_inert)
+                        };
                         self.put(
                             *it,
-                            Obj::Sub { it: it2, list, idx, inert, owned: owned || converted, recipe, calls, witness },
+                            Obj::Sub {
+                                it: it2,
+                                list,
+                                idx,
+                                inert,
+                                owned: owned || converted,
+                                recipe,
+                                calls,
+                                inert_log,
+                                witness,
+                                witness_inert,
+                            },
                         );
                         if converted {
                             let mut o = Out::new("fiter_own", Res::Unit);
@@ -796,8 +827,12 @@ impl<'a> Th<'a> {
                 None => Out::skip("fiter_own"),
             },
             Op::FIterForceInert { it, k } => match self.get(*it) {
-                Some(Obj::Sub { inert, .. }) => {
+                Some(Obj::Sub { inert, calls, inert_log, witness, witness_inert, .. }) => {
                     *inert = Some(*k);
+                    inert_log.push((*calls, *k));
+                    if witness.is_some() {
+                        *witness_inert = Some(*k);
+                    }
                     Out::new("fiter_force_inert", Res::Unit)
                 }
                 _ => Out::skip("fiter_force_inert"),
@@ -1267,7 +1302,7 @@ impl<'a> Th<'a> {
                         Ok(it) => {
                             let list = Arc::new(model::rfind_all(hb, nb));
                             let recipe = SubRecipe { rev, hay, needle, cfg: None };
-                            self.put(dst, Obj::Sub { it: Box::new(RevIt { it, keep: None }), list, idx: 0, inert: None, owned: false, recipe, calls: 0, witness: None });
+                            self.put(dst, Obj::Sub { it: Box::new(RevIt { it, keep: None }), list, idx: 0, inert: None, owned: false, recipe, calls: 0, inert_log: Vec::new(), witness: None, witness_inert: None });
                             Out::new("rfind_iter_new", Res::Unit)
                         }
                         Err(m) => Out::new("rfind_iter_new", Res::Panic(m)).expect(VKind::SubIter, Res::Unit),
@@ -1277,7 +1312,7 @@ impl<'a> Th<'a> {
                         Ok(it) => {
                             let list = Arc::new(model::find_all(hb, nb));
                             let recipe = SubRecipe { rev, hay, needle, cfg: None };
-                            self.put(dst, Obj::Sub { it: Box::new(FwdIt { it, keep: None }), list, idx: 0, inert: None, owned: false, recipe, calls: 0, witness: None });
+                            self.put(dst, Obj::Sub { it: Box::new(FwdIt { it, keep: None }), list, idx: 0, inert: None, owned: false, recipe, calls: 0, inert_log: Vec::new(), witness: None, witness_inert: None });
                             Out::new("find_iter_new", Res::Unit)
                         }
                         Err(m) => Out::new("find_iter_new", Res::Panic(m)).expect(VKind::SubIter, Res::Unit),
@@ -1328,7 +1363,18 @@ impl<'a> Th<'a> {
                         // iterator itself is never owned at this point
                         self.put(
                             dst,
-                            Obj::Sub { it, list, idx: 0, inert: None, owned: false, recipe, calls: 0, witness: None },
+                            Obj::Sub {
+                                it,
+                                list,
+                                idx: 0,
+                                inert: None,
+                                owned: false,
+                                recipe,
+                                calls: 0,
+                                inert_log: Vec::new(),
+                                witness: None,
+                                witness_inert: None,
+                            },
                         );
                         Out::new("finder_iter_new", Res::Unit)
                     }
@@ -1341,7 +1387,24 @@ impl<'a> Th<'a> {
     /// An iterator equivalent to the recipe's, advanced by `calls` next()
     /// calls -- built without clone()/into_owned(), from the harness' own
     /// copy of the needle (the caller's buffer may be dead by now).
-    fn make_witness(&mut self, recipe: &SubRecipe, calls: usize) -> Option<Box<dyn DynSub>> {
+    fn make_witness(
+        &mut self,
+        recipe: &SubRecipe,
+        calls: usize,
+        inert_log: &[(usize, u32)],
+    ) -> (Option<Box<dyn DynSub>>, Option<u32>) {
+        match self.make_witness_inner(recipe, calls, inert_log) {
+            Some((w, i)) => (Some(w), i),
+            None => (None, None),
+        }
+    }
+
+    fn make_witness_inner(
+        &mut self,
+        recipe: &SubRecipe,
+        calls: usize,
+        inert_log: &[(usize, u32)],
+    ) -> Option<(Box<dyn DynSub>, Option<u32>)> {
         let h = arena_slice(recipe.hay);
         let nb: &'static [u8] = unsafe { &*(self.bytes(recipe.needle) as *const [u8]) };
         let mut it: Box<dyn DynSub> = match (&recipe.cfg, recipe.rev) {
@@ -1358,10 +1421,26 @@ impl<'a> Th<'a> {
                 Box::new(RevIt { it: lib(|| r.rfind_iter(h)).ok()?, keep: Some(keep) })
             }
         };
-        for _ in 0..calls {
-            it.next().ok()?;
+        // replay the lineage's calls, with the forced give-up fault armed at
+        // the same points, so that the witness carries the same prefilter state
+        let mut w_inert: Option<u32> = None;
+        for i in 0..calls {
+            for &(at, k) in inert_log {
+                if at == i {
+                    w_inert = Some(k);
+                }
+            }
+            with_ctx(|c| c.inert_countdown = w_inert);
+            let r = it.next();
+            w_inert = with_ctx(|c| c.inert_countdown.take()).flatten();
+            r.ok()?;
         }
-        Some(it)
+        for &(at, k) in inert_log {
+            if at == calls {
+                w_inert = Some(k);
+            }
+        }
+        Some((it, w_inert))
     }
 
     fn op_packed(
@@ -1402,7 +1481,10 @@ impl<'a> Th<'a> {
                     Ok(None) => return Out::skip("packed"),
                     Err(m) => return Out::new("packed", Res::Panic(m)),
                 };
-                match m_all::packedpair::Finder::with_pair(n, p) {
+                match match lib(|| m_all::packedpair::Finder::with_pair(n, p)) {
+                    Ok(f) => f,
+                    Err(m) => return Out::new("packed", Res::Panic(m)),
+                } {
                     None => None,
                     Some(f) => Some((lib(|| f.find_prefilter(h)), None)),
                 }
@@ -1414,7 +1496,10 @@ impl<'a> Th<'a> {
                     Ok(None) => return Out::skip("packed"),
                     Err(m) => return Out::new("packed", Res::Panic(m)),
                 };
-                match x86::sse2::packedpair::Finder::with_pair(n, p) {
+                match match lib(|| x86::sse2::packedpair::Finder::with_pair(n, p)) {
+                    Ok(f) => f,
+                    Err(m) => return Out::new("packed", Res::Panic(m)),
+                } {
                     None => None,
                     Some(f) => {
                         let min = f.min_haystack_len();
@@ -1429,7 +1514,10 @@ impl<'a> Th<'a> {
                     Ok(None) => return Out::skip("packed"),
                     Err(m) => return Out::new("packed", Res::Panic(m)),
                 };
-                match x86::avx2::packedpair::Finder::with_pair(n, p) {
+                match match lib(|| x86::avx2::packedpair::Finder::with_pair(n, p)) {
+                    Ok(f) => f,
+                    Err(m) => return Out::new("packed", Res::Panic(m)),
+                } {
                     None => None,
                     Some(f) => {
                         let min = f.min_haystack_len();
@@ -1444,7 +1532,10 @@ impl<'a> Th<'a> {
                     Ok(None) => return Out::skip("packed"),
                     Err(m) => return Out::new("packed", Res::Panic(m)),
                 };
-                match arm::neon::packedpair::Finder::with_pair(n, p) {
+                match match lib(|| arm::neon::packedpair::Finder::with_pair(n, p)) {
+                    Ok(f) => f,
+                    Err(m) => return Out::new("packed", Res::Panic(m)),
+                } {
                     None => None,
                     Some(f) => {
                         let min = f.min_haystack_len();
@@ -1551,7 +1642,14 @@ impl<'a> Th<'a> {
                     _ => u64::MAX,
                 });
             } else {
-                let mut its: Vec<_> = finders.iter().map(|f| f.find_iter(h)).collect();
+                let mut its: Vec<_> = match catch_unwind(AssertUnwindSafe(|| {
+                    finders.iter().map(|f| f.find_iter(h)).collect::<Vec<_>>()
+                })) {
+                    Ok(v) => v,
+                    Err(e) => {
+                        return Out::new("lockstep_iter", Res::Panic(panic_msg(e))).expect(VKind::Heuristic, Res::Unit)
+                    }
+                };
                 let mut counts: Vec<Option<u32>> = (0..its.len()).map(|i| inert_at.get(i).copied().flatten()).collect();
                 let cap = hb.len() + 3;
                 let mut steps = 0;
@@ -1687,6 +1785,7 @@ fn run_thread(w: &World, ep: &Episode, tid: usize, plumbing: &Plumbing, seen_new
             c.allocs = 0;
             c.ran = 0;
             c.inert_fired = false;
+            c.lib_panicked = false;
         });
         crate::progress(tid, i);
         let armed_before = matches!(op, Op::ArmInert { .. });
@@ -1700,6 +1799,7 @@ fn run_thread(w: &World, ep: &Episode, tid: usize, plumbing: &Plumbing, seen_new
             with_ctx(|c| c.inert_countdown = None);
         }
         let allocs = with_ctx(|c| c.allocs).unwrap_or(0);
+        let any_lib_panic = with_ctx(|c| c.lib_panicked).unwrap_or(false);
         let panicked = matches!(out.res, Res::Panic(_));
         {
             let mut st = w.stats.lock().unwrap();
@@ -1726,7 +1826,7 @@ fn run_thread(w: &World, ep: &Episode, tid: usize, plumbing: &Plumbing, seen_new
                 format!("{}: haystack shorter than min_haystack_len but the documented panic did not happen", out.kind_name),
             );
         }
-        if !panicked && !out.allow_alloc && allocs > 0 {
+        if !panicked && !any_lib_panic && !out.allow_alloc && allocs > 0 {
             w.violate(VKind::Alloc, format!("{} made {} heap allocation request(s)", out.kind_name, allocs));
         }
         if let Some(e) = &out.expect {
